@@ -321,6 +321,43 @@ fn run(ctx: &mut Ctx) {
         banks.push(event::trg_bank(9));
         exercise(ctx, u32::MAX, &banks, "one short track only");
     });
+    // ---- one pad column, one time bin: 1..=12 separate pad clusters against 1..=8 wire hits (more pads than wires, fewer,
+    // equal, exactly eight)
+    ctx.cases("hits-per-bin", 12 * 4, |ctx, i, rng| {
+        let nclusters = 1 + (i % 12) as usize;
+        let nwires = [1usize, 2, 5, 8][(i / 12) as usize];
+        let col = rng.usize(32);
+        let w0 = (0..256).find(|x| crate::evgen::wire_to_column(*x) == col).unwrap();
+        let k = 130 + rng.usize(60);
+        let mut banks: Banks = Vec::new();
+        for d in 0..nwires {
+            let mut ws = vec![3000i16; 400];
+            let a = 120.0 + 40.0 * d as f64;
+            for (j, r) in m.wr.iter().enumerate() {
+                if k + j < 400 {
+                    ws[k + j] = (3000.0 + a * r).round() as i16;
+                }
+            }
+            banks.push(event::wire_bank(&inv, (w0 + d) % 256, ws));
+        }
+        let mut pm = BTreeMap::new();
+        let row0 = 20 + rng.usize(400);
+        for c in 0..nclusters {
+            let amp = 500.0 + 90.0 * c as f64;
+            for (q, wgt) in [0.5, 1.0, 0.45].iter().enumerate() {
+                let mut ps = vec![1725i16; 400];
+                for (j, r) in m.pr.iter().enumerate() {
+                    if k + j < 400 {
+                        ps[k + j] = (1725.0 + amp * wgt * r).round() as i16;
+                    }
+                }
+                pm.insert((col, row0 + 4 * c + q), ps);
+            }
+        }
+        banks.extend(event::pad_banks(&inv, &pm, 1400));
+        banks.push(event::trg_bank(9));
+        exercise(ctx, u32::MAX, &banks, "several pad clusters and wire hits in one time bin");
+    });
     ctx.cases("foreign-packet", 32, |ctx, col, rng| {
         let mut pm = BTreeMap::new();
         pm.insert((col as usize, rng.usize(576)), (0..300).map(|_| 1725 + (rng.gauss() * 3.0) as i16).collect::<Vec<i16>>());
